@@ -28,7 +28,7 @@ from concurrent.futures import ThreadPoolExecutor
 import vlib, e2e
 
 H = os.path.join(os.path.dirname(os.path.abspath(__file__)), "harness")
-JOBS = int(os.environ.get("VERIF_JOBS", "8") or 8)   # concurrent llgo builds (the machine is shared)
+JOBS = int(os.environ.get("VERIF_JOBS", "12") or 12)   # concurrent llgo builds (the machine is shared)
 
 # kind -> (finding key, text) ; one key per kind, raised by the static obligation and/or the history
 KEYS = {
@@ -746,7 +746,10 @@ def run(ck):
         bh = hashlib.sha256(open(os.path.join(ck.work, "det", "prog%d" % i), "rb").read()).hexdigest()
         return json.load(open(irj)), bh
     with ThreadPoolExecutor(min(len(names) + nrep, JOBS)) as ex:
-        fut_h = [ex.submit(R.run_history, n, hs[n]) for n in names]
+        # longest histories first (the critical path is the number of sequential builds of one history)
+        order = sorted(names, key=lambda n: -sum(1 for st in hs[n]["steps"] if st[0] == "build"))
+        futs = {n: ex.submit(R.run_history, n, hs[n]) for n in order}
+        fut_h = [futs[n] for n in names]
         fut_d = [ex.submit(det_one, i) for i in range(nrep)]
         results = [f.result() for f in fut_h]
         det = [f.result() for f in fut_d]
